@@ -5,6 +5,7 @@ record, for every executed step, the scale, the image size and the per-pixel int
 cost, and the disparity map entering the multiscale step.  A reference restates the coarse-to-fine interval rule."""
 from __future__ import annotations
 
+import copy
 import math
 
 import numpy as np
@@ -76,7 +77,8 @@ def cases(draw):
     steps += post(2)
     a = draw(st.integers(-9, 0))
     b = draw(st.integers(0, 9))
-    p = {"pair": pair, "pipeline": steps, "disp": [a, b], "ns": ns, "sf": sf, "marge": marge, "nb": nb}
+    p = {"pair": pair, "pipeline": steps, "disp": [a, b], "ns": ns, "sf": sf, "marge": marge, "nb": nb,
+         "warm": draw(st.integers(0, 3)) == 0}
     if nb > 1:
         mc["band"] = ["r", "g", "b"][draw(st.integers(0, nb - 1))]
         p["band_offsets"] = draw(st.lists(st.integers(0, 5), min_size=nb, max_size=nb))
@@ -125,6 +127,12 @@ def body(ctx: Ctx, p: dict) -> None:
                 rec["rumax"] = -a / sf ** m.current_scale
             mss.append(rec)
 
+    if p.get("warm"):
+        # the machine has already run the same steps with ANOTHER marge: nothing of that run may survive
+        warm = {n: (dict(c, marge=marge + 2) if n.split(".")[0] == "multiscale" else copy.deepcopy(c)) for n, c in pipe.items()}
+        wl, wr = drive.make_inputs(left, right, (a, b), ml, mr, None, bands, **gen.conv_kwargs(p["pair"]))
+        drive.run_checked(machine, wl, wr, drive.check_pipeline(machine, warm, wl, wr))
+        checked = drive.check_pipeline(machine, pipe, l, r)
     spy = drive.Spy(before=before)
     with spy:
         lo, ro = drive.run_checked(machine, l, r, checked)
@@ -233,6 +241,8 @@ def body(ctx: Ctx, p: dict) -> None:
     classes = [f"ns{ns}", f"sf{sf}", f"marge{marge}"]
     if has_val:
         classes.append("validation")
+    if p.get("warm"):
+        classes.append("machine-ran-another-marge-before")
     if p["nb"] > 1:
         classes.append("multiband")
     if ml is not None or mr is not None:
